@@ -341,7 +341,7 @@ def _data(kind, tier, lo=1, cheap=False):
         return itertools.chain(int_tuples(tier, lo, cheap), int_samples(tier, max(lo, 5)))
     if kind == 'x32.16':
         return itertools.chain(fxp_tuples(tier, lo, 4 if cheap or tier != 'quick' else 3), fxp_samples(tier))
-    return itertools.chain(fxp_tuples(tier, lo, 3), fxp_samples(tier, small=True))
+    return itertools.chain(fxp_tuples(tier, lo, 3), itertools.islice(fxp_samples(tier, small=True), T(tier, 20, 400)))
 
 
 def _seeds3(d, tier):
@@ -384,6 +384,7 @@ def in_mode(kind, unique):
             ds = itertools.chain(itertools.chain.from_iterable(itertools.product((-2, 0, 1, 3), repeat=n) for n in range(1, T(tier, 4, 6))),
                                  (tuple(int(a) for a in d) for d in fxp_samples(tier)))
         for d in ds:
+            if unique and tier == 'quick' and len(d) == 4 and list(d) != sorted(d): continue      # quick: unique-mode data of length 4 as multisets
             if _is_unique_mode(d) == unique:
                 yield (kind, d, (), 0)
     return gen
@@ -490,7 +491,7 @@ def _mk():
             add(f'quantiles_{method[:4]}_{sfx}', 'quantiles', ckf('quantiles'), in_quantiles(kind, method),
                 dom.format(lo=2) + f"; n = 2..6 (quick: one rotating n for length >= 4), method='{method}', 3 seeds (1 rotating seed for length >= 4, thorough >= 5); one data set of 12 with n = 10; n = 1")
         if kind != 'x16.8':
-            add(f'mode_unique_{sfx}', 'mode', ckf('mode'), in_mode(kind, True), 'data with a unique most common value: ' + (dom.format(lo=1) if kind == 'i32' else 'tuples of length 1..3 (5) over (-2, 0, 1, 3) + integral data sets'))
+            add(f'mode_unique_{sfx}', 'mode', ckf('mode'), in_mode(kind, True), 'data with a unique most common value (quick: length 4 as sorted tuples): ' + (dom.format(lo=1) if kind == 'i32' else 'tuples of length 1..3 (5) over (-2, 0, 1, 3) + integral data sets'))
             add(f'mode_ties_{sfx}', 'mode', ckf('mode'), in_mode(kind, False), 'data with several most common values (documented: the first one encountered): same domain')
         for fname in PAIR:
             if kind == 'i32' and fname != 'covariance': continue
